@@ -1193,7 +1193,7 @@ def gen_status(rng, parents, used):
     else:
         std = rng.sample(STATUS_STD, rng.choice([0, 1, 1, 2]))
     custom = {}
-    if rng.random() < 0.55:
+    if rng.random() < (0.55 if used['codes'] else 0.9):
         code = rng.choice(used['codes']) if used['codes'] and rng.random() < 0.7 else rng.choice(STATUS_CODES)
         custom[rng.choice(STATUS_NAMES)] = code
         used['codes'].append(code)
@@ -1393,11 +1393,34 @@ def gen_program(rng, big):
     # modules with struct parameters (several of them, to be accessed while another one is)
     theme = rng.choice([None] * 7 + ['status', 'status', 'struct'])
     if theme:
-        nops = max(nops, 7)
+        nops = max(nops, 9 if theme == 'status' else 7)
     p_class, p_inst = {None: (0.45, 0.72), 'status': (0.75, 0.9), 'struct': (0.3, 0.85)}[theme]
     used = {'std': [], 'codes': []}
+    status_classes = {}      # classes declaring a status: name -> (bases, status datatype)
+    mirror = {}              # class -> the class declared in parallel to it (an independent family built the same way)
     for _ in range(nops):
         r = rng.random()
+        todo = [c for c in status_classes if c not in mirror and c not in mirror.values()]
+        if theme == 'status' and todo and r < p_class and rng.random() < 0.6:
+            # a class family of its own built like an existing one: same bases (or their counterparts), the status extended
+            # by the same standard codes and the same custom code numbers - under the same or under other names
+            a = rng.choice(todo)
+            abases, adt = status_classes[a]
+            ncls += 1
+            name = 'K%d' % ncls
+            dt = {'t': 'status', 'parent': mirror.get(adt['parent'], adt['parent']), 'std': list(adt['std']),
+                  'custom': {(rng.choice(STATUS_NAMES) if rng.random() < 0.6 else n): c for n, c in adt['custom'].items()}}
+            op = {'op': 'class', 'name': name, 'bases': [mirror.get(b, b) for b in abases], 'mixin': False,
+                  'decls': [['status', {'k': 'param', 'dt': dt, 'props': {}, 'inherit': True}]]}
+            ops.append(op)
+            if ex.apply(op)['outcome'] == 'ok':
+                kinds[name] = dict(kinds[a])
+                mkinds[name] = dict(mkinds.get(a, {}))
+                mvalued[name] = set(mvalued.get(a, ()))
+                modules.append(name)
+                mirror[a] = name
+                status_classes[name] = (op['bases'], dt)
+            continue
         if r < p_class or not modules:
             ncls += 1
             name = 'K%d' % ncls
@@ -1410,6 +1433,8 @@ def gen_program(rng, big):
             else:
                 nb = rng.choice([1, 1, 1, 2, 2, 3])
                 first = rng.choice(modules) if modules and rng.random() < 0.75 else rng.choice(ROOTS)
+                if theme == 'status' and status_classes and rng.random() < 0.6:
+                    first = rng.choice(sorted(status_classes))
                 bases = [first]
                 for _ in range(nb - 1):
                     wild = rng.random() < 0.05
@@ -1498,6 +1523,9 @@ def gen_program(rng, big):
                 mkinds[name] = mest
                 mvalued[name] = mval
                 (mixins if is_mixin else features if is_feature else modules).append(name)
+                for a, d in decls:
+                    if a == 'status' and d.get('dt') and d['dt']['t'] == 'status' and not is_mixin:
+                        status_classes[name] = (bases, d['dt'])
         elif r < p_inst or not insts:
             name = 'i%d' % (len(ex.steps) + 1)
             if sections and rng.random() < 0.18:
